@@ -67,17 +67,17 @@ def shards(tier):
 
 def requested_tuple(s):
     return (s["power"], s["beep"], s["mode"], s["temp"], s["fan"], s["swing"], s["turbo"], s["follow_me"], s["eco"],
-            s["purifier"], s["aux"], s["sleep"], s["fahrenheit"], s["humidity"], s["freeze"])
+            s["purifier"], s["aux"] == 1, s["aux"] == 2, s["sleep"], s["fahrenheit"], s["humidity"], s["freeze"])
 
 
 def decoded_tuple(c):
-    aux = 2 if c["indep_aux"] else (1 if c["aux_heat"] else 0)
+    # the vendor layout has two independent bits: PTC (byte 9 bit 3) and independent PTC (byte 22 bit 3)
     return (c["power"], c["beep"], c["mode"], c["temp"], c["fan"], c["swing"], c["turbo"], c["follow_me"], c["eco"],
-            c["purifier"], aux, c["sleep"], c["fahrenheit"], c["humidity"], c["freeze"])
+            c["purifier"], c["aux_heat"], c["indep_aux"], c["sleep"], c["fahrenheit"], c["humidity"], c["freeze"])
 
 
-NAMES = ("power", "beep", "mode", "temp", "fan", "swing", "turbo", "follow_me", "eco", "purifier", "aux", "sleep",
-         "fahrenheit", "humidity", "freeze")
+NAMES = ("power", "beep", "mode", "temp", "fan", "swing", "turbo", "follow_me", "eco", "purifier", "aux_heat(PTC bit)",
+         "independent_aux(bit)", "sleep", "fahrenheit", "humidity", "freeze")
 
 
 def execute(s):
